@@ -359,4 +359,7 @@ MUTATIONS += [
     dict(id="w3-c04c-gaussian-logpartition", patch="seeded/C04c/patch.diff", expect={"C04": ["R2f:"]}),
     dict(id="w3-c04d-kron-perm-row", patch="seeded/C04d/patch.diff", expect={"C04": ["L2:"]}),
     dict(id="w3-c01d-lse-clamp", patch="seeded/C01d/patch.diff", expect={"C01": ["R11c:"], "C12": ["R11c:"], "C13": ["R11c:"]}),
+    # ---- R4q sample-call
+    dict(id="r4q-sample-call-permute", file="cirkit/backend/torch/queries.py", old="        samples = samples.permute(2, 0, 1, 3)", new="        samples = samples.permute(3, 0, 1, 2)", expect={"C15": ["R4q:cirkit.backend.torch.queries.SamplingQuery.__call__:sample-call"]}),
+    dict(id="q-r4q-sample-call-index-then-transposeless", quiet=True, file="cirkit/backend/torch/queries.py", old="        samples = samples.permute(2, 0, 1, 3)\n        # TODO: fix for the case of multi-output circuits, i.e., O != 1 or K != 1\n        samples = samples[:, 0, 0]  # (num_samples, D)", new="        samples = samples[0, 0]  # (num_samples, D)", expect={}),
 ]
